@@ -592,6 +592,30 @@ func (e *Engine) dispatch(s *State, f *Frame, fn *ssa.Function, args []Value, bi
 		}, func(st *State, n *Term, data *Bytes) {
 			setRes(st, x, TupleV{C(8, 0), errEOF})
 		})
+	case "(*bytes.Buffer).ReadRune":
+		o, id := bufObj(s, args[0])
+		un := unreadLen(o)
+		empty := Eq(un, CI(0))
+		first := o.B.At(o.R)
+		ascii := And(Not(empty), Lt(first, C(8, 0x80), false))
+		multi := And(Not(empty), Not(Lt(first, C(8, 0x80), false)))
+		return e.forkN(s, []*Term{empty, ascii, multi}, func(st *State, i int) {
+			b := st.heap[id]
+			switch i {
+			case 0:
+				setRes(st, x, TupleV{C(32, 0), CI(0), errEOF})
+			case 1:
+				setRes(st, x, TupleV{ZExt(b.B.At(b.R), 32), CI(1), nilErr})
+				b.R = Add(b.R, CI(1))
+			case 2:
+				// a UTF-8 sequence of 1..4 bytes (1 = invalid encoding -> RuneError): size and rune are arbitrary here
+				st.imprec = append(st.imprec, "Buffer.ReadRune of a non-ASCII byte havocked at "+site)
+				n := e.boundedVar(st, "runesize", 1, 4)
+				st.pc = append(st.pc, Le(n, unreadLen(b), true))
+				setRes(st, x, TupleV{e.freshVar("rune", 32), n, nilErr})
+				b.R = Add(b.R, n)
+			}
+		})
 	case "(*bytes.Buffer).UnreadByte":
 		panic(engineUnsupported("UnreadByte"))
 	case "(*bytes.Buffer).Read":
